@@ -5,6 +5,7 @@ certified solve, shapes and entries of the assembled matrix (block placement by 
 -/
 import GemseoVerif.Model.C07
 import Mathlib.Data.List.Basic
+import Mathlib.Data.List.GetD
 import Mathlib.Tactic.Ring
 import Mathlib.Algebra.Order.Ring.Rat
 
@@ -71,5 +72,210 @@ theorem entry_shiftDiag (m : Mat) (a b : Nat) (ha : a < m.length)
     List.getElem?_zipIdx]
   simp [ha, hb]
   split <;> simp
+
+/-! ### Block placement: offsets are prefix sums of the sizes -/
+
+section placement
+variable (jac : String → String → Option Mat) (sz : String → Nat)
+
+theorem offset_zero (names : List String) : offset sz names 0 = 0 := by simp [offset]
+
+theorem offset_cons_succ (n : String) (names : List String) (k : Nat) :
+    offset sz (n :: names) (k + 1) = sz n + offset sz names k := by
+  simp [offset]
+
+theorem offset_length (names : List String) : offset sz names names.length = dim sz names := by
+  simp [offset, dim]
+
+theorem dim_cons (n : String) (names : List String) : dim sz (n :: names) = sz n + dim sz names := by
+  simp [dim]
+
+/-- Every line of a block has the width of its variable (shape check of the discipline's
+    Jacobian, `_check_jacobian_shape`). -/
+def RowWF (isRes : Bool) : Prop :=
+  ∀ f v a, ((blockOf jac sz isRes f v).getD a (zeroRow (sz v))).length = sz v
+
+theorem entry_eq_getD_getD (m : Mat) (n a b : Nat) :
+    entry m a b = (m.getD a (zeroRow n)).getD b 0 := by
+  simp only [entry, List.getD_eq_getElem?_getD]
+  cases h : m[a]? with
+  | none => simp [zeroRow_getD, ← List.getD_eq_getElem?_getD]
+  | some r => simp
+
+theorem blockRowLine_length (isRes : Bool) (hwf : RowWF jac sz isRes) (f : String)
+    (vs : List String) (a : Nat) : (blockRowLine jac sz isRes f vs a).length = dim sz vs := by
+  induction vs with
+  | nil => simp [blockRowLine, dim]
+  | cons v vs ih =>
+    have : blockRowLine jac sz isRes f (v :: vs) a =
+        (blockOf jac sz isRes f v).getD a (zeroRow (sz v)) ++ blockRowLine jac sz isRes f vs a := by
+      simp [blockRowLine]
+    rw [this, List.length_append, hwf f v a, ih, dim_cons]
+
+/-- Column placement inside one line of a block row. -/
+theorem blockRowLine_getD (isRes : Bool) (hwf : RowWF jac sz isRes) (f : String)
+    (vs : List String) (a j b : Nat) (hj : j < vs.length) (hb : b < sz (vs.getD j "")) :
+    (blockRowLine jac sz isRes f vs a).getD (offset sz vs j + b) 0 =
+      entry (blockOf jac sz isRes f (vs.getD j "")) a b := by
+  induction vs generalizing j with
+  | nil => simp at hj
+  | cons v vs ih =>
+    have hsplit : blockRowLine jac sz isRes f (v :: vs) a =
+        (blockOf jac sz isRes f v).getD a (zeroRow (sz v)) ++ blockRowLine jac sz isRes f vs a := by
+      simp [blockRowLine]
+    rw [hsplit]
+    have hlen := hwf f v a
+    cases j with
+    | zero =>
+      simp only [List.getD_cons_zero] at hb ⊢
+      rw [offset_zero, Nat.zero_add, entry_eq_getD_getD _ (sz v)]
+      generalize (blockOf jac sz isRes f v).getD a (zeroRow (sz v)) = r at hlen ⊢
+      exact List.getD_append _ _ _ _ (by omega)
+    | succ j =>
+      simp only [List.getD_cons_succ] at hb ⊢
+      have hj' : j < vs.length := by simpa using hj
+      rw [offset_cons_succ, Nat.add_assoc, ← ih j hj' hb]
+      generalize (blockOf jac sz isRes f v).getD a (zeroRow (sz v)) = r at hlen ⊢
+      rw [List.getD_append_right _ _ _ _ (by omega), hlen, Nat.add_sub_cancel_left]
+
+theorem blockRow_length (isRes : Bool) (f : String) (vs : List String) :
+    (blockRow jac sz isRes f vs).length = sz f := by simp [blockRow]
+
+theorem assemble_length (isRes : Bool) (fs vs : List String) :
+    (assemble jac sz isRes fs vs).length = dim sz fs := by
+  induction fs with
+  | nil => simp [assemble, dim]
+  | cons f fs ih =>
+    have : assemble jac sz isRes (f :: fs) vs =
+        blockRow jac sz isRes f vs ++ assemble jac sz isRes fs vs := by simp [assemble]
+    rw [this, List.length_append, blockRow_length, ih, dim_cons]
+
+/-- Row placement: line `offset fs i + a` of the assembled matrix is line `a` of block row `i`. -/
+theorem assemble_getD (isRes : Bool) (fs vs : List String) (i a : Nat) (hi : i < fs.length)
+    (ha : a < sz (fs.getD i "")) :
+    (assemble jac sz isRes fs vs).getD (offset sz fs i + a) [] =
+      blockRowLine jac sz isRes (fs.getD i "") vs a := by
+  induction fs generalizing i with
+  | nil => simp at hi
+  | cons f fs ih =>
+    have hsplit : assemble jac sz isRes (f :: fs) vs =
+        blockRow jac sz isRes f vs ++ assemble jac sz isRes fs vs := by simp [assemble]
+    rw [hsplit]
+    have hlen := blockRow_length jac sz isRes f vs
+    cases i with
+    | zero =>
+      simp only [List.getD_cons_zero] at ha ⊢
+      rw [offset_zero, Nat.zero_add, List.getD_append _ _ _ _ (by omega)]
+      simp [blockRow, List.getD_eq_getElem?_getD, ha]
+    | succ i =>
+      simp only [List.getD_cons_succ] at ha ⊢
+      have hi' : i < fs.length := by simpa using hi
+      rw [offset_cons_succ, Nat.add_assoc, ← ih i hi' ha,
+        List.getD_append_right _ _ _ _ (by omega), hlen, Nat.add_sub_cancel_left]
+
+/-- **Block placement.** Entry `(off_i + a, off_j + b)` of the assembled matrix is entry `(a, b)`
+    of block `(i, j)`, the offsets being the prefix sums of the sizes. -/
+theorem assemble_entry' (isRes : Bool) (hwf : RowWF jac sz isRes) (fs vs : List String)
+    (i j a b : Nat) (hi : i < fs.length) (hj : j < vs.length)
+    (ha : a < sz (fs.getD i "")) (hb : b < sz (vs.getD j "")) :
+    entry (assemble jac sz isRes fs vs) (offset sz fs i + a) (offset sz vs j + b) =
+      entry (blockOf jac sz isRes (fs.getD i "") (vs.getD j "")) a b := by
+  unfold entry
+  rw [assemble_getD jac sz isRes fs vs i a hi ha]
+  exact blockRowLine_getD jac sz isRes hwf _ vs a j b hj hb
+
+/-- Shape of the disciplines' Jacobians (`_check_jacobian_shape`): block `(f, v)` has `sz f` lines
+    of width `sz v`. -/
+def JacWF : Prop :=
+  ∀ f v m, jac f v = some m → m.length = sz f ∧ ∀ row ∈ m, row.length = sz v
+
+theorem getD_length_of_rows (m : Mat) (n a : Nat) (h : ∀ row ∈ m, row.length = n) :
+    (m.getD a (zeroRow n)).length = n := by
+  rw [List.getD_eq_getElem?_getD]
+  cases hm : m[a]? with
+  | none => simp [zeroRow_length]
+  | some r => simpa using h r (List.mem_of_getElem? hm)
+
+theorem shiftDiag_rows (m : Mat) (n : Nat) (h : ∀ row ∈ m, row.length = n) :
+    ∀ row ∈ shiftDiag m, row.length = n := by
+  intro row hrow
+  simp only [shiftDiag, List.mem_map] at hrow
+  obtain ⟨⟨r, i⟩, hmem, rfl⟩ := hrow
+  have : r ∈ m := by
+    have := List.mem_zipIdx hmem
+    simp only [Nat.zero_add] at this
+    rw [this.2.2]
+    exact List.getElem_mem _
+  simpa using h r this
+
+theorem negIdentity_rows (n : Nat) : ∀ row ∈ negIdentity n, row.length = n := by
+  intro row hrow
+  simp only [negIdentity, List.mem_map] at hrow
+  obtain ⟨i, _, rfl⟩ := hrow
+  simp
+
+theorem zeros_rows (r c : Nat) : ∀ row ∈ zeros r c, row.length = c := by
+  intro row hrow
+  simp only [zeros, List.mem_replicate] at hrow
+  rw [hrow.2, zeroRow_length]
+
+theorem blockOf_rows (hj : JacWF jac sz) (isRes : Bool) (f v : String) :
+    ∀ row ∈ blockOf jac sz isRes f v, row.length = sz v := by
+  unfold blockOf genBlock
+  by_cases hc : (isRes && f == v) = true
+  · simp only [hc, if_true]
+    cases hjac : jac f v with
+    | none => exact negIdentity_rows (sz v)
+    | some m => exact shiftDiag_rows m (sz v) (hj f v m hjac).2
+  · simp only [hc]
+    cases hjac : jac f v with
+    | none => exact zeros_rows (sz f) (sz v)
+    | some m => exact (hj f v m hjac).2
+
+theorem rowWF_of_jacWF (hj : JacWF jac sz) (isRes : Bool) : RowWF jac sz isRes :=
+  fun f v a => getD_length_of_rows _ _ a (blockOf_rows jac sz hj isRes f v)
+
+/-- **`-I` on the residual diagonal.** The diagonal block of the residual `Y_f - y_f` is the
+    discipline's block `∂Y_f/∂y_f` (zero when the discipline is not self-coupled) minus the identity. -/
+theorem blockOf_residual_diag (hj : JacWF jac sz) (f : String) (a b : Nat)
+    (ha : a < sz f) (hb : b < sz f) :
+    entry (blockOf jac sz true f f) a b =
+      (match jac f f with | some m => entry m a b | none => 0) - if a = b then 1 else 0 := by
+  unfold blockOf genBlock
+  simp only [Bool.true_and, beq_self_eq_true, if_true]
+  cases hjac : jac f f with
+  | none => simp [entry_negIdentity _ _ _ ha hb]; split <;> simp
+  | some m =>
+    have hlen := (hj f f m hjac).1
+    have hrow : (m.getD a []).length = sz f := by
+      have ha' : a < m.length := by omega
+      have : m.getD a [] = m[a] := by simp [List.getD_eq_getElem?_getD, ha']
+      rw [this]; exact (hj f f m hjac).2 _ (List.getElem_mem _)
+    exact entry_shiftDiag m a b (by omega) (by omega)
+
+/-- Off the residual diagonal (or without the residual flag) the block is the discipline's. -/
+theorem blockOf_plain (isRes : Bool) (f v : String) (h : (isRes && f == v) = false) (a b : Nat) :
+    entry (blockOf jac sz isRes f v) a b =
+      match jac f v with | some m => entry m a b | none => 0 := by
+  unfold blockOf genBlock
+  simp only [h]
+  cases jac f v with
+  | none => simp [entry_zeros]
+  | some m => simp
+
+/-- **`split_jac`.** Entry `(a, b)` of the block of variable `j` is entry `(a, off_j + b)`. -/
+theorem splitJac_entry (vs : List String) (m : Mat) (j a b : Nat) (hj : j < vs.length)
+    (hb : b < sz (vs.getD j "")) :
+    entry (((splitJac sz vs m).getD j ("", [])).2) a b = entry m a (offset sz vs j + b) := by
+  simp only [splitJac, List.getD_eq_getElem?_getD, List.getElem?_map, List.getElem?_range hj,
+    Option.map_some, Option.getD_some, entry]
+  cases hm : m[a]? with
+  | none => simp
+  | some row =>
+    simp only [Option.map_some, Option.getD_some]
+    rw [List.getElem?_take_of_lt (by simpa [List.getD_eq_getElem?_getD] using hb),
+      List.getElem?_drop]
+
+end placement
 
 end GV.C07
